@@ -104,11 +104,15 @@ _HEXDIGITS = "0123456789abcdef"
 
 
 def _hexdigit_str(n):
-    """symbolic int 0..15 -> one-char str, by a 16-way z3 If-chain rendered as a symbolic str."""
-    # Build as a LazyIntSymbolicStr from a code point: ord = n<10 ? 48+n : 87+n
-    from crosshair.libimpl.builtinslib import LazyIntSymbolicStr
-    cp = n + 48 if n < 10 else n + 87   # forks once per digit
-    return LazyIntSymbolicStr([cp])
+    """symbolic int 0..15 -> one-char symbolic str whose code point is a branch-free z3 If term."""
+    from crosshair.libimpl.builtinslib import LazyIntSymbolicStr, SymbolicInt
+    import z3
+    with NoTracing():
+        if isinstance(n, SymbolicInt):
+            cp = SymbolicInt(n.var + z3.If(n.var >= 10, z3.IntVal(87), z3.IntVal(48)))
+        else:
+            cp = n + (87 if n >= 10 else 48)
+        return LazyIntSymbolicStr([cp])
 
 
 def _hex2_format(fmt, other):
